@@ -64,6 +64,7 @@ class FaultProxy:
         self.plan = []
         self.count = 0
         self.log = []
+        self.wire_retry = []        # (connection index, retry byte of the request header as it arrived)
         self.ls = None
         self.stop = False
         self._lock = threading.Lock()
@@ -109,6 +110,7 @@ class FaultProxy:
             self.plan = [tuple(f) if f else None for f in plan]
             self.count = 0
             self.log = []
+            self.wire_retry = []
             if self._next_is_refuse():
                 self._unlisten()
                 self.log.append(("C", 0))
@@ -182,6 +184,8 @@ class FaultProxy:
         if f and f[0] == "W":
             k = f[1]
             part = _recv_n(c, k) if k > 0 else b""
+            if len(part) > 6:
+                self.wire_retry.append((self.count - 1, part[6]))
             d = socket.socket(socket.AF_UNIX, socket.SOCK_STREAM)
             try:
                 d.connect(self.daemon_path)
@@ -192,6 +196,8 @@ class FaultProxy:
             self.log.append(("W", len(part)))
             return          # the caller closes c with the rest of the request unread
         req = _recv_msg(c)
+        if len(req) > 6:
+            self.wire_retry.append((self.count - 1, req[6]))
         d = socket.socket(socket.AF_UNIX, socket.SOCK_STREAM)
         d.connect(self.daemon_path)
         try:
